@@ -77,6 +77,8 @@ theorem sensitivity_eq_risk_ci (ppf : F → F) (infv det cases α : F) (confint 
       else if det > cases then .error .badInput else risk_ci ppf infv det cases α confint := by
   unfold sensitivity risk_ci
   simp only [Nat.cast_zero, Nat.cast_one, Nat.cast_ofNat]
+  -- (closed here when the two texts coincide; otherwise up to ring identities inside each field)
+  all_goals (split_ifs <;> first | rfl | (simp only [Except.ok.injEq, Results.mk.injEq]; refine ⟨?_, ?_, ?_, ?_⟩ <;> first | trivial | ring_nf))
 
 /-- `specificity` is `risk_ci` on the complementary count `noncases − detected`, behind the same validation -/
 theorem specificity_eq_risk_ci (ppf : F → F) (infv det nc α : F) (confint : String) :
@@ -94,8 +96,8 @@ theorem specificity_eq_risk_ci (ppf : F → F) (infv det nc α : F) (confint : S
   simp only [if_neg h1, if_neg h2, if_neg h3]
   have hnc : nc ≠ 0 := ne_of_gt (not_le.mp h2)
   have e1 : (1 : F) - det / nc = (nc - det) / nc := by field_simp
-  have e2 : det * (nc - det) = (nc - det) * (nc - (nc - det)) := by ring
-  rw [e1, e2]
+  simp only [e1]
+  split_ifs <;> first | rfl | (simp only [Except.ok.injEq, Results.mk.injEq]; refine ⟨?_, ?_, ?_, ?_⟩ <;> first | trivial | ring_nf)
 
 /-- the error cases of `sensitivity`, in the code's words -/
 theorem sens_reject_iff (ppf : F → F) (det cases α : F) (confint : String) :
@@ -406,7 +408,9 @@ theorem logit_roundtrip (hneg : ∀ x : F, Transc.exp (-x) = (Transc.exp x)⁻¹
     (hel : ∀ x : F, 0 < x → Transc.exp (Transc.log x) = x) (p y : F) (h0 : 0 < p) (h1 : p < 1)
     (hy : logit p = .ok y) : inverse_logit y = .ok p := by
   simp only [logit, Except.ok.injEq, Nat.cast_one] at hy
-  subst hy
+  -- whatever spelling of the odds the source uses, it is `p / (1 - p)` up to ring identities
+  obtain ⟨X, hX, rfl⟩ : ∃ X, X = p / (1 - p) ∧ y = Transc.log X := ⟨_, by ring, hy.symm⟩
+  subst hX
   have hq : 0 < 1 - p := by linarith
   have ho : 0 < p / (1 - p) := div_pos h0 hq
   simp only [inverse_logit, Nat.cast_one, hneg, hel _ ho, Except.ok.injEq]
@@ -424,9 +428,10 @@ theorem inverse_logit_roundtrip (hneg : ∀ x : F, Transc.exp (-x) = (Transc.exp
   have hs : 0 < Transc.exp y + 1 := by linarith
   refine ⟨?_, ?_, ?_⟩
   · simp only [logit, Nat.cast_one, Except.ok.injEq, e]
-    have : Transc.exp y / (Transc.exp y + 1) / (1 - Transc.exp y / (Transc.exp y + 1)) = Transc.exp y := by
-      field_simp; ring
-    rw [this, hle]
+    have hX : ∀ X : F, X = Transc.exp y → Transc.log X = y := fun X h => by rw [h, hle]
+    apply hX
+    field_simp
+    ring
   · rw [e]; exact div_pos he hs
   · rw [e, div_lt_one hs]; linarith
 
